@@ -4278,13 +4278,17 @@ class Macro:
                 MacroArgumentKind.MATCH: ("regex", "end_expr", "concat_expr", "string_const", "string_case_const", "binary_regex", "binary_string_const"),
                 MacroArgumentKind.INTEXPR: ("string_const", "bool_const", "number_const", "char_const", "identifier_const", *all_sum_expr_nodes)
             }[argspec.kind]
-            if argspec.kind in (MacroArgumentKind.MATCH, MacroArgumentKind.INTEXPR) and value.data == "identifier_const":
-                # an argument of the calling macro passed on to this one: bind what it stands for
-                # (binding the name itself makes the callee look its own argument up again)
-                try:
-                    value = parse_ctx._lookup_named_entity(MacroArgumentKind.EXPR, value.children[0])
-                except UndefinedReferenceError:
-                    pass
+            if argspec.kind in (MacroArgumentKind.MATCH, MacroArgumentKind.INTEXPR):
+                # arguments of the calling macro passed on to this one (alone or inside a larger expression): bind what
+                # they stand for (binding the name itself makes the callee look its own argument up again)
+                def resolve_callers_arguments(tree):
+                    if tree.data == "identifier_const":
+                        try:
+                            return parse_ctx._lookup_named_entity(MacroArgumentKind.EXPR, tree.children[0])
+                        except UndefinedReferenceError:
+                            return tree
+                    return lark.Tree(tree.data, [resolve_callers_arguments(x) if isinstance(x, lark.Tree) else x for x in tree.children], tree.meta)
+                value = resolve_callers_arguments(value)
             if value.data not in allowed_types:
                 raise IllegalParseTree("Invalid argument type for argument " + argspec.name, value)
             if argspec.should_early_bind():
